@@ -350,7 +350,7 @@ def discusRecord (h : DHdr) (line : Str) (words : List Str) (w0 : Str) : PRes DH
   else .ok h
 
 def discusHeader : List Str → DHdr → PRes (DHdr × List Str)
-  | [], h => .ok (h, [])
+  | [], _ => .error .sfe          -- the header loop ended without an `atoms` record (`for … else: raise`)
   | line :: rest, h =>
     match splitWs line with
     | [] => discusHeader rest h
@@ -530,7 +530,7 @@ def pdffitRecord (h : PHdr) (line : Str) (words : List Str) (w0 : Str) : PRes PH
   else .ok h
 
 def pdffitHeader : List Str → PHdr → PRes (PHdr × List Str)
-  | [], h => .ok (h, [])
+  | [], _ => .error .sfe          -- the header loop ended without an `atoms` record (`for … else: raise`)
   | line :: rest, h =>
     match splitWs line with
     | [] => pdffitHeader rest h
